@@ -521,3 +521,80 @@ func processTxsExhaustiveRule(p *engine.Prog, r *engine.Report, rule string) {
 	sort.Strings(bad)
 	r.Check(len(bad) == 0, rule, "processTxs|the loop over the block's transactions is left early only by refusing the block", p.InstrPos(vt), "every other exit is the exhaustion of the list", "the loop can be left at "+strings.Join(bad, ", ")+" towards a successful return: the remaining transactions of the block are accepted without having been validated or applied (their nonces are not consumed — the same signed transaction can be mined again)")
 }
+
+// offlineFlagsAtomsRule: every state condition under which the validator side of the offline detector accepts an
+// Offline* flag is established by the proposer side before it returns that flag (sibling agreement, atom by atom).
+func offlineFlagsAtomsRule(p *engine.Prog, r *engine.Report, rule string) {
+	po := mustFunc(p, r, "blockchain", "OfflineDetector.ProposeOffline")
+	vb := mustFunc(p, r, "blockchain", "OfflineDetector.ValidateBlock")
+	if po == nil || vb == nil {
+		return
+	}
+	names := map[string]bool{"IsOnlineIdentity": true, "HasDelayedOfflinePenalty": true, "HasStatusSwitchAddresses": true}
+	// atom: (accessor, value it has on the given edge)
+	atomOf := func(cond ssa.Value) (string, bool, bool) { // name, valueWhenCondTrue, ok
+		c, neg := stripNot(cond)
+		if call, ok := c.(*ssa.Call); ok {
+			if o := engine.CalleeObj(&call.Call); o != nil && names[o.Name()] {
+				return o.Name(), !neg, true
+			}
+		}
+		return "", false, false
+	}
+	// validator: atoms required on the accepting side
+	required := map[string]bool{} // name -> required value
+	for _, g := range checksOf(vb) {
+		if name, vTrue, ok := atomOf(g.If.Cond); ok {
+			required[name] = vTrue == g.PassTrue
+		}
+	}
+	if len(required) < 2 {
+		r.Und(rule, "OfflineDetector.ValidateBlock|state conditions", p.Pos(vb.Pos()), fmt.Sprintf("only %d found", len(required)))
+		return
+	}
+	flagName := map[int64]string{}
+	for _, ret := range engine.Returns(po) {
+		if len(ret.Results) != 2 || isRecoverBlock(ret.Block()) {
+			continue
+		}
+		k, isK := engine.ConstInt(returnedValue(ret, 1))
+		if isK && k == 0 {
+			continue
+		}
+		fl := "a flag"
+		if isK {
+			if flagName[k] == "" {
+				flagName[k] = fmt.Sprintf("flag %d", k)
+			}
+			fl = flagName[k]
+		}
+		for _, name := range sortedKeys(boolKeys(required)) {
+			want := required[name]
+			g := guardsWhere(po, func(cond ssa.Value) (bool, bool, string) {
+				n2, vTrue, ok := atomOf(cond)
+				if !ok || n2 != name {
+					return false, false, ""
+				}
+				return true, vTrue == want, name
+			})
+			okc := len(g) > 0 && engine.OnlyThroughPassRet(po, ret, g)
+			if !okc && name == "IsOnlineIdentity" && want {
+				// drawn from the online set itself
+				for v := range engine.BackSlice(returnedValue(ret, 0), engine.DefaultSlice) {
+					if c, ok := v.(*ssa.Call); ok && engine.CallNameIs(c, "GetAllOnlineValidators", "GetOnlineValidators") {
+						okc = true
+					}
+				}
+			}
+			r.Check(okc, rule, uniq(r, "ProposeOffline|"+fl+" returned only with "+name+"=="+fmt.Sprint(want)), p.InstrPos(ret), "same condition as OfflineDetector.ValidateBlock", "the proposer can return "+fl+" without having established "+name+"=="+fmt.Sprint(want)+", which every validator demands for a block carrying it: the honestly built block is refused and the round is lost")
+		}
+	}
+}
+
+func boolKeys(m map[string]bool) map[string]bool {
+	o := map[string]bool{}
+	for k := range m {
+		o[k] = true
+	}
+	return o
+}
